@@ -8,6 +8,7 @@ mod hsys;
 mod oracles;
 mod p_builder;
 mod p_layout;
+mod p_misc;
 mod p_sched;
 mod plan;
 mod res;
@@ -247,6 +248,23 @@ fn subs_for(id: &str) -> Vec<Sub> {
                 1_500_000,
             ),
         ],
+        "C07" => vec![sub(
+            lp(
+                "C07",
+                "c07-layout",
+                "outer plans with batches (3/16 of the ops, nesting <= 3, controller declarations from 13 static shapes incl. (), read-only, write-only, mixed; custom controllers dispatching 0..3 times and shred's MultiDispatcher); the batch's access is computed by the harness itself as the union of the controller declaration and every ordinary system inside at any depth; oracle A: isolation, dependency, barrier and no-needless-serialisation predicates on the outer executed layout with that union, and the same predicates recursively on every inner layout; non-trivial = an outer system that conflicts with a batch only through an inner system or only through the controller's declared data",
+                GenCfg {
+                    p_batch: 3,
+                    universe_max: 6,
+                    tl_in_batch_access: false,
+                    ..GenCfg::default()
+                },
+                700,
+                p_layout::o_c07,
+            ),
+            60_000,
+            1_000_000,
+        )],
         "C01" => vec![
             sub(
                 lp(
@@ -527,6 +545,7 @@ fn sched_subs_for(id: &str) -> Vec<Sub> {
                     GenCfg {
                         p_batch: 3,
                         tl_in_batch: true,
+                        tl_in_batch_access: false,
                         max_ops: 16,
                         ..sched_cfg()
                     },
@@ -573,7 +592,100 @@ fn sched_subs_for(id: &str) -> Vec<Sub> {
                 2_000,
             ),
         ],
-        "C12" => vec![sched_sub(
+        "C13" => vec![sub(
+            p_misc::C13 {
+                cfg: GenCfg {
+                    max_ops: 10,
+                    p_static: 10,
+                    p_batch: 3,
+                    p_tl: 2,
+                    ..GenCfg::default()
+                },
+            },
+            40_000,
+            800_000,
+        )],
+        "C14" => vec![
+            Sub {
+                max_lanes: 8,
+                ..sub(
+                    p_misc::C14 {
+                        cfg: GenCfg {
+                            max_ops: 8,
+                            max_inner_ops: 3,
+                            universe_max: 4,
+                            max_depth: 2,
+                            allow_multi: false,
+                            tl_in_batch: false,
+                            p_tl: 2,
+                            p_batch: 2,
+                            ..GenCfg::default()
+                        },
+                        pairs: false,
+                    },
+                    160,
+                    6_000,
+                )
+            },
+            Sub {
+                max_lanes: 8,
+                ..sub(
+                    p_misc::C14 {
+                        cfg: GenCfg {
+                            max_ops: 8,
+                            universe_max: 6,
+                            max_reads: 1,
+                            max_writes: 1,
+                            p_batch: 1,
+                            max_depth: 1,
+                            allow_multi: false,
+                            tl_in_batch: false,
+                            ..GenCfg::default()
+                        },
+                        pairs: true,
+                    },
+                    160,
+                    6_000,
+                )
+            },
+        ],
+        "C11" => vec![Sub {
+            max_lanes: 1,
+            ..sub(p_misc::C11, 120, 6_000)
+        }],
+        "C07" => vec![sched_sub(
+            sp(
+                "C07",
+                "c07-sched",
+                "plans with batches (nesting <= 2 under schedule control, thread-local systems inside batches with their own access) x schedule x pool x {dispatch, dispatch_par, dispatch_seq}; oracle B: no escaping panic, windows of an outer system and of a batch (or anything inside it) that conflict are disjoint, inner systems are isolated / ordered among themselves and run exactly once per inner dispatch; non-trivial = an outer system conflicting with a batch only through an inner system or only through controller data",
+                GenCfg {
+                    p_batch: 4,
+                    tl_in_batch: true,
+                    p_tl: 1,
+                    ..sched_cfg()
+                },
+                vec![Want::Isolation, Want::Deps, Want::Barriers, Want::Counts],
+                vec![Dispatch, Par, SeqTl],
+                vec![0, 1, 1, 2],
+                p_sched::nt_batch,
+            ),
+            3_000,
+            100_000,
+        )],
+        "C12" => vec![
+          sub(
+            p_misc::C12Sendable {
+                cfg: GenCfg {
+                    p_tl: 1,
+                    max_ops: 12,
+                    tl_in_batch_access: false,
+                    ..GenCfg::default()
+                },
+            },
+            20_000,
+            400_000,
+          ),
+          sched_sub(
             sp(
                 "C12",
                 "c12-sched",
@@ -591,7 +703,8 @@ fn sched_subs_for(id: &str) -> Vec<Sub> {
             ),
             3_000,
             60_000,
-        )],
+          ),
+        ],
         _ => vec![],
     }
 }
